@@ -1,4 +1,162 @@
-/- oracle_c08 — placeholder driver (replaced when the C08 model is added). -/
+/-
+  oracle_c08 — line-protocol driver for the C08 models.
+  Numbers are lower-case hex without prefix; a field element is five limbs `n0:n1:n2:n3:n4`;
+  signed integers carry a leading `-`. Byte strings are hex (32 bytes for SetB32/GetB32).
+    norm <fe>                 -> <fe>            generated Field.Normalize
+    add <fe r> <fe a>         -> <fe>            generated Field.SetAdd
+    mulint <fe> <k>           -> <fe>
+    neg <fe> <m>              -> <fe>
+    mul <fe a> <fe b>         -> <fe>
+    sqr <fe>                  -> <fe>
+    setb32 <hex32>            -> <fe>
+    getb32 <fe>               -> <hex32>
+    setint <k>                -> <fe>
+    iszero|isodd <fe>         -> 0|1
+    equals <fe> <fe>          -> 0|1
+    inv|sqrt|invvar <fe>      -> <fe>            hand models of the chains over generated mul/sqr
+    const <name>              -> <hex>
+    tab <pre_g|pre_g_128|prec|fin> <i>  -> <fe x> <fe y> | none
+    tablen <name>             -> <n>
+    dbl <xyz>                 -> <xyz>           xyz = <fe x> <fe y> <fe z> <inf 0|1>
+    add3 <xyz> <xyz>          -> <xyz>
+    addxy <xyz> <xy>          -> <xyz>           xy = <fe x> <fe y> <inf>
+    negj <xyz>                -> <xyz>
+    mullam <xyz>              -> <xyz>
+    setxyz <xyz>              -> <xy>
+    setxo <fe> <odd>          -> <xy>
+    isvalid <xy>              -> 0|1
+    wnaf <int> <w>            -> ok d,d,… | panic       (digits signed decimal, `-` when empty)
+    splitexp <int>            -> <int> <int>
+    ecmult <xyz> <int na> <ng> -> <xyz> | panic
+    ecmultgen <a>             -> <xyz>
+    refmul <k> <x> <y>        -> <x> <y> | inf          reference affine k·(x,y) (Base.Secp)
+-/
+import GocoinV.Model.Group
 import GocoinV.Base.Proto
-open GocoinV
-def main : IO Unit := Proto.serve () (fun _ _ => ((), "bad-op"))
+open GocoinV GocoinV.C08 GocoinV.Gen.Field5x52 GocoinV.Gen
+
+def hexDigit? (c : Char) : Option Nat :=
+  let n := c.toNat
+  if 48 ≤ n ∧ n ≤ 57 then some (n - 48)
+  else if 97 ≤ n ∧ n ≤ 102 then some (n - 87)
+  else none
+
+def hexNat? (s : String) : Option Nat :=
+  if s.isEmpty then none
+  else s.toList.foldl (fun acc c => do let a ← acc; let d ← hexDigit? c; pure (a * 16 + d)) (some 0)
+
+def hexInt? (s : String) : Option Int :=
+  if s.startsWith "-" then (hexNat? (s.drop 1).toString).map fun n => -(n : Int)
+  else (hexNat? s).map fun n => (n : Int)
+
+def natHex (n : Nat) : String := String.ofList (Nat.toDigits 16 n)
+
+def intHex (i : Int) : String := if i < 0 then "-" ++ natHex i.natAbs else natHex i.toNat
+
+def fe? (s : String) : Option Fe :=
+  match (s.splitOn ":").map hexNat? with
+  | [some a, some b, some c, some d, some e] =>
+    if a < 2^64 ∧ b < 2^64 ∧ c < 2^64 ∧ d < 2^64 ∧ e < 2^64 then some ⟨a, b, c, d, e⟩ else none
+  | _ => none
+
+def feStr (a : Fe) : String := ":".intercalate (a.toList.map natHex)
+
+def bool? (s : String) : Option Bool := if s == "1" then some true else if s == "0" then some false else none
+
+def xyz? : List String → Option XYZ
+  | [x, y, z, i] => do pure { x := ← fe? x, y := ← fe? y, z := ← fe? z, inf := ← bool? i }
+  | _ => none
+
+def xy? : List String → Option XY
+  | [x, y, i] => do pure { x := ← fe? x, y := ← fe? y, inf := ← bool? i }
+  | _ => none
+
+def xyzStr (a : XYZ) : String := s!"{feStr a.x} {feStr a.y} {feStr a.z} {Proto.boolStr a.inf}"
+def xyStr (a : XY) : String := s!"{feStr a.x} {feStr a.y} {Proto.boolStr a.inf}"
+
+def bytes32? (s : String) : Option (List Nat) :=
+  match Hex.decode s with
+  | some b => if b.length = 32 then some (b.map (·.toNat)) else none
+  | none => none
+
+def constByName : String → Option Nat
+  | "order" => some CurveConsts.order | "halforder" => some CurveConsts.halfOrder | "p" => some CurveConsts.p
+  | "gx" => some CurveConsts.gx | "gy" => some CurveConsts.gy | "lambda" => some CurveConsts.lambda
+  | "beta" => some CurveConsts.beta | "a1b2" => some CurveConsts.a1b2 | "b1" => some CurveConsts.b1
+  | "a2" => some CurveConsts.a2 | "window_a" => some CurveConsts.windowa | "window_g" => some CurveConsts.windowg
+  | _ => none
+
+def tabAt (name : String) (i : Nat) : List Nat :=
+  match name with
+  | "pre_g" => Tables.preGAt i | "pre_g_128" => Tables.preG128At i | "prec" => Tables.precAt i
+  | "fin" => if i = 0 then Tables.fin else []
+  | _ => []
+
+def step (_ : Unit) (toks : List String) : Unit × String :=
+  let bad := ((), "bad-op")
+  let fe1 (f : Fe → Fe) (a : String) := match fe? a with | some a => ((), feStr (f a)) | none => bad
+  match toks with
+  | ["norm", a] => fe1 normalize a
+  | ["sqr", a] => fe1 sqr a
+  | ["inv", a] => fe1 inv a
+  | ["sqrt", a] => fe1 sqrt a
+  | ["invvar", a] => fe1 invVar a
+  | ["add", r, a] => match fe? r, fe? a with | some r, some a => ((), feStr (setAdd r a)) | _, _ => bad
+  | ["mul", a, b] => match fe? a, fe? b with | some a, some b => ((), feStr (mul a b)) | _, _ => bad
+  | ["mulint", r, k] => match fe? r, hexNat? k with
+    | some r, some k => if k < 2^64 then ((), feStr (mulInt r k)) else bad
+    | _, _ => bad
+  | ["neg", a, m] => match fe? a, hexNat? m with
+    | some a, some m => if m < 2^64 then ((), feStr (negate a m)) else bad
+    | _, _ => bad
+  | ["setint", k] => match hexNat? k with
+    | some k => if k < 2^64 then ((), feStr (setInt k)) else bad
+    | none => bad
+  | ["setb32", h] => match bytes32? h with | some b => ((), feStr (setB32L b)) | none => bad
+  | ["getb32", a] => match fe? a with
+    | some a => ((), Hex.encode ((getB32 a).map UInt8.ofNat))
+    | none => bad
+  | ["iszero", a] => match fe? a with | some a => ((), Proto.boolStr (isZero a)) | none => bad
+  | ["isodd", a] => match fe? a with | some a => ((), Proto.boolStr (isOdd a)) | none => bad
+  | ["equals", a, b] => match fe? a, fe? b with | some a, some b => ((), Proto.boolStr (equals a b)) | _, _ => bad
+  | ["const", n] => match constByName n with | some v => ((), natHex v) | none => bad
+  | ["tablen", n] => match n with
+    | "pre_g" => ((), toString Tables.preGLen) | "pre_g_128" => ((), toString Tables.preG128Len)
+    | "prec" => ((), toString Tables.precLen) | "fin" => ((), "1") | _ => bad
+  | ["tab", n, i] => match i.toNat? with
+    | some i => match tabAt n i with
+      | [] => ((), "none")
+      | l => ((), s!"{feStr (Fe.ofList (l.take 5))} {feStr (Fe.ofList (l.drop 5))}")
+    | none => bad
+  | ["dbl", x, y, z, i] => match xyz? [x, y, z, i] with | some a => ((), xyzStr (XYZ.double a)) | none => bad
+  | ["negj", x, y, z, i] => match xyz? [x, y, z, i] with | some a => ((), xyzStr (XYZ.neg a)) | none => bad
+  | ["mullam", x, y, z, i] => match xyz? [x, y, z, i] with | some a => ((), xyzStr (XYZ.mulLambda a)) | none => bad
+  | ["setxyz", x, y, z, i] => match xyz? [x, y, z, i] with | some a => ((), xyStr (XY.ofXYZ a)) | none => bad
+  | ["add3", x, y, z, i, x2, y2, z2, i2] => match xyz? [x, y, z, i], xyz? [x2, y2, z2, i2] with
+    | some a, some b => ((), xyzStr (XYZ.add a b)) | _, _ => bad
+  | ["addxy", x, y, z, i, x2, y2, i2] => match xyz? [x, y, z, i], xy? [x2, y2, i2] with
+    | some a, some b => ((), xyzStr (XYZ.addXY a b)) | _, _ => bad
+  | ["setxo", x, o] => match fe? x, bool? o with | some x, some o => ((), xyStr (XY.setXO x o)) | _, _ => bad
+  | ["isvalid", x, y, i] => match xy? [x, y, i] with | some a => ((), Proto.boolStr (XY.isValid a)) | none => bad
+  | ["wnaf", a, w] => match hexInt? a, w.toNat? with
+    | some a, some w =>
+      if w < 2 ∨ w > 30 then bad else
+      match wnaf a w with
+      | some ds => ((), "ok " ++ (if ds.isEmpty then "-" else ",".intercalate (ds.map toString)))
+      | none => ((), "panic")
+    | _, _ => bad
+  | ["splitexp", a] => match hexInt? a with
+    | some a => let (r1, r2) := splitExp a; ((), s!"{intHex r1} {intHex r2}")
+    | none => bad
+  | ["ecmult", x, y, z, i, na, ng] => match xyz? [x, y, z, i], hexInt? na, hexNat? ng with
+    | some a, some na, some ng => match ecmult a na ng with
+      | some r => ((), xyzStr r) | none => ((), "panic")
+    | _, _, _ => bad
+  | ["ecmultgen", a] => match hexNat? a with | some a => ((), xyzStr (ecmultGen a)) | none => bad
+  | ["refmul", k, x, y] => match hexNat? k, hexNat? x, hexNat? y with
+    | some k, some x, some y => match Secp.mul k (some (x, y)) with
+      | some (rx, ry) => ((), s!"{natHex rx} {natHex ry}") | none => ((), "inf")
+    | _, _, _ => bad
+  | _ => bad
+
+def main : IO Unit := Proto.serve () step
